@@ -1,7 +1,23 @@
 import SshAudit.Driver.WireOps
+import SshAudit.Model.Session
 namespace SshAudit.Driver
+open SshAudit SshAudit.Session
 
-/-- line-protocol operations of the Session model (stub; filled in when the model lands) -/
-def sessionOp (_op : String) (_args : List String) : Option J := none
+def decHandshake : String → Option Handshake
+  | "connectFailed" => some .connectFailed | "noBanner" => some .noBanner | "readError" => some .readError
+  | "badFraming" => some .badFraming | "wrongPacketType" => some .wrongPacketType | "parseFailed" => some .parseFailed
+  | "ok" => some .ok | _ => none
+
+def decMode : String → Option Mode
+  | "standard" => some .standard | "policy" => some .policy | "makePolicy" => some .makePolicy | _ => none
+
+/-- line-protocol operations of the Session model -/
+def sessionOp (op : String) (args : List String) : Option J :=
+  match op, args with
+  | "audit.end", [h, m, multi, st, passed] => do
+    let h ← decHandshake h; let m ← decMode m; let multi ← decBool multi; let st ← decNat st; let passed ← decBool passed
+    let e := auditEnd { mode := m, multiTarget := multi } h { reportStatus := st, policyPassed := passed }
+    pure (jok (.obj [("status", .nat e.status), ("algReport", .bool e.algReport), ("viaSysExit", .bool e.viaSysExit)]))
+  | _, _ => none
 
 end SshAudit.Driver
